@@ -41,6 +41,25 @@ class Only:
         return True
 
 
+def include(run, module, views, tier, *needles):
+    """Run another property's check inside this run (a clause this property rests on), keeping this property's own
+    explanation / trusted base / not-decided list. With `needles`, only the obligations whose key contains one of them."""
+    stack = getattr(run, "include_stack", None)
+    if stack is None:
+        stack = []
+        run.include_stack = stack
+    name = module.__name__.rsplit(".", 1)[-1]
+    if name in stack or name == "c%s" % run.pid[1:]:
+        return          # mutual includes (C17 <-> C18) stop here
+    stack.append(name)
+    saved = (run.explanation, list(run.trusted), list(run.not_decided), run.cfg)
+    try:
+        module.check(Only(run, *needles) if needles else run, views, tier)
+    finally:
+        run.explanation, run.trusted, run.not_decided, run.cfg = saved
+        stack.pop()
+
+
 class Run:
     """One check run for one property."""
 
